@@ -176,6 +176,24 @@ def handle (op : String) (args : List String) : Option String :=
     some (match optName? n0, optName? n1, optName? name with
       | some a, some b, some n => s!"ok {assignFold a b n}"
       | _, _, _ => "bad-args")
+  | "parser.assignstr", [tzs, dt, name] =>
+    -- `_assign_tzname` for a `tzinfos` TZ string: the names `aware.tzname()` gives at fold 0 / 1 come from the Lean model of
+    -- tz.tzstr (C08's `TzStr.tzstr` + `transitions`), not from the implementation; an exception of the zone object propagates
+    some (match parseCps? tzs, (parseIntList? dt).bind DT.ofList?, optName? name with
+      | some s, some t, some n =>
+        let s' := if tzs == "-" then [] else s
+        (match strNames s' t with
+         | .ok (a, b) => s!"ok {assignFold a b n}"
+         | .error e => "err " ++ e.name)
+      | _, _, _ => "bad-args")
+  | "parser.localfinal", [n0, n1, name, utcz] =>
+    -- with the parserinfo's own UTCZONE list (`;`-separated code-point words)
+    some (match optName? n0, optName? n1, parseCps? name, (utcz.splitOn ";").mapM parseCps? with
+      | some a, some b, some n, some uz =>
+        (match localFinal { Info.default false false 2000 2000 with UTCZONE := uz } a b n with
+         | .utc => "ok utc"
+         | .localFold f => s!"ok local {f}")
+      | _, _, _, _ => "bad-args")
   | "parser.localfinal", [n0, n1, name] =>
     some (match optName? n0, optName? n1, parseCps? name with
       | some a, some b, some n =>
